@@ -54,13 +54,18 @@ STORES_VEL = ("gro", "dump", "dlph")
 STORES_FRC = ("dump", "dlph")
 
 
-def _gen_chain(rng, a, b):
+def _gen_chain(rng, a, b, tric=None, wide=True):
     nmol, nb = rng.randint(1, 4), rng.randint(1, 5)
     n = nmol * nb
     case = {"a": a, "b": b, "nmol": nmol, "nb": nb, "n": n,
             "vel": rng.random() < 0.6,
             "frc": a == "dump" and rng.random() < 0.6,
-            "tric": a == "gro" and rng.random() < 0.4, "frames": []}
+            "tric": a == "gro" and (rng.random() < 0.4 if tric is None
+                                    else tric), "frames": [],
+            # xyz: %10.5f fields run together for x <= -10 nm / >= 100 nm;
+            # 'narrow' cases stay inside, 'wide' ones are a separate key
+            "wide": wide}
+    span = 3.0 if wide else 0.4
     for f in range(rng.randint(1, 3)):
         L = [round(rng.uniform(1.0, 20.0), 3) for _ in range(3)]
         box = [[L[0], 0, 0], [0, L[1], 0], [0, 0, L[2]]]
@@ -73,13 +78,13 @@ def _gen_chain(rng, a, b):
         # values lie on the grid of format a (in a's file units) so that the
         # generated file *is* the data
         if a == "gro":
-            pos = [[round(rng.uniform(-3 * L[k], 3 * L[k]), 3) for k in range(3)]
+            pos = [[round(rng.uniform(-span * L[k], span * L[k]), 3) for k in range(3)]
                    for _ in range(n)]
             vel = [[round(rng.gauss(0, 1.5), 4) for _ in range(3)]
                    for _ in range(n)]
             frc = None
         else:   # dump: Angstrom, Angstrom/ps, kcal/mol/Angstrom, 6 decimals
-            pos = [[round(rng.uniform(-30 * L[k], 30 * L[k]), 6)
+            pos = [[round(rng.uniform(-10 * span * L[k], 10 * span * L[k]), 6)
                     for k in range(3)] for _ in range(n)]
             vel = [[round(rng.gauss(0, 15), 6) for _ in range(3)]
                    for _ in range(n)]
@@ -257,9 +262,13 @@ def _run_chain(c, wdir, env):
         return viol, judged, procs
     msg = (r2.out + r2.err)
     if r2.rc != 0:
-        if "an error occurred" in msg:
+        # (an exception in a later frame is thrown in a worker thread and ends
+        # csg_map through std::terminate)
+        if "an error occurred" in msg or "terminate called after throwing" in msg:
             judged.append((pre + "reread", False))
-            viol.append((pre + "reread-rejected", "csg_map cannot read back "
+            viol.append((pre + "reread-rejected" + (
+                "-wide-coordinates" if b == "xyz" and c["wide"] else ""),
+                "csg_map cannot read back "
                          "the file csg_map wrote (b->a leg fails)", witness(
                              {"output_tail": msg[-1500:], "b_file_head": open(
                                  os.path.join(wdir, "b1." + b)).read()[:1500]})))
@@ -402,7 +411,9 @@ def run(chk):
     chains = []
     for i in range(n_chain):
         a, b = pairs[i % len(pairs)]
-        chains.append(_gen_chain(rng, a, b))
+        # a=gro: alternate orthorhombic / triclinic boxes
+        chains.append(_gen_chain(rng, a, b, (i // len(pairs)) % 2 == 0,
+                                 wide=(b != "xyz" or (i // len(pairs)) % 3 == 2)))
     for i, c in enumerate(chains):
         jobs.append(lambda i=i, c=c: ("c", c, _run_chain(
             c, os.path.join(work, "chain_%d" % i), env)))
